@@ -2,7 +2,9 @@ package main
 
 import (
 	"fmt"
+	"os"
 	"reflect"
+	"runtime/debug"
 	"sort"
 	"strings"
 	"time"
@@ -16,6 +18,9 @@ func guarded(timeout time.Duration, f func()) string {
 	go func() {
 		defer func() {
 			if x := recover(); x != nil {
+				if os.Getenv("VERIF_STACK") != "" {
+					fmt.Fprintf(os.Stderr, "%v\n%s\n", x, debug.Stack())
+				}
 				done <- "panic: " + oneLine(fmt.Sprint(x))
 			}
 		}()
@@ -47,6 +52,8 @@ func errClass(err error) string {
 	switch {
 	case strings.Contains(s, "can have only one of the ReplaceName"):
 		return "E_EDIT_TWO_TAGS"
+	case strings.Contains(s, "because that is its own name"):
+		return "E_EDIT_SELF"
 	case strings.Contains(s, "not in chain"):
 		return "E_EDIT_MISSING"
 	case strings.Contains(s, "duplicated in chain"):
@@ -192,6 +199,21 @@ func runCase(c *CaseDesc) []string {
 		r.logf("end")
 		return r.lines
 	}
+	{
+		// the list as nject sees it before the named edits (S1 input for the model)
+		names := map[string]int{"": 0}
+		code := func(s string) int {
+			if n, ok := names[s]; ok {
+				return n
+			}
+			names[s] = len(names)
+			return names[s]
+		}
+		for _, vp := range nject.VerifContents(coll) {
+			r.logf("e %d origin=%d rep=%d bef=%d aft=%d nf=%d", r.idxOf(vp), code(vp.Origin), code(vp.ReplaceByName),
+				code(vp.InsertBeforeName), code(vp.InsertAfterName), b2i(vp.NonFinal))
+		}
+	}
 	invT := reflect.FuncOf(typesOf(c.InvIn), typesOf(c.InvOut), false)
 	invPtr := reflect.New(invT)
 	var initPtr reflect.Value
@@ -248,4 +270,73 @@ func runCase(c *CaseDesc) []string {
 	}
 	r.logf("end")
 	return r.lines
+}
+
+// runEditPair runs a case with named edits and then the same providers written by hand in the
+// order the implementation's S1 stage produced, without directives; both must behave identically.
+func runEditPair(c *CaseDesc) []string {
+	lines := runCase(c)
+	var order []int
+	inS1 := false
+	for _, l := range lines {
+		if strings.HasPrefix(l, "dump ") {
+			inS1 = strings.HasPrefix(l, "dump S1 ")
+			continue
+		}
+		if inS1 && strings.HasPrefix(l, "f ") {
+			var pos, id int
+			fmt.Sscanf(l, "f %d id=%d", &pos, &id)
+			order = append(order, id)
+		}
+	}
+	if len(order) == 0 {
+		return lines
+	}
+	c2 := c.clone()
+	c2.Provs = nil
+	for _, id := range order {
+		q := c.provOf(id).clone()
+		q.Replace, q.Before, q.After = "", "", ""
+		c2.Provs = append(c2.Provs, q)
+	}
+	l2 := runCase(c2)
+	pick := func(ls []string) []string {
+		var out []string
+		for _, l := range ls {
+			if strings.HasPrefix(l, "t ") {
+				out = append(out, l)
+			}
+			if strings.HasPrefix(l, "bind ") {
+				f := strings.Fields(l)
+				if len(f) > 3 {
+					f = f[:3]
+				}
+				out = append(out, strings.Join(f, " "))
+			}
+		}
+		return out
+	}
+	a, b := pick(lines), pick(l2)
+	verdict := "pair same"
+	if strings.Join(a, "\n") != strings.Join(b, "\n") {
+		verdict = "pair diff"
+	}
+	// insert the verdict before the final "end"
+	out := append([]string{}, lines[:len(lines)-1]...)
+	out = append(out, verdict)
+	if verdict == "pair diff" {
+		for _, l := range b {
+			out = append(out, "t2 "+l)
+		}
+	}
+	return append(out, "end")
+}
+
+func (c *CaseDesc) provOf(idx int) *ProvDesc {
+	for _, p := range c.Provs {
+		if p.Idx == idx {
+			return p
+		}
+	}
+	return nil
 }
